@@ -24,6 +24,7 @@ func propC11() *Property {
 			{ID: "C11.R4", Title: "Harvest works on a clone: the receiver is never written", Floor: 1, Run: c11R4},
 			{ID: "C11.R5", Title: "buffered items are shared with clones: never written in place", Floor: 1, Run: c11R5},
 			{ID: "C11.R6", Title: "every source is replenished to the requested depth", Floor: 1, Run: c11R6},
+			{ID: "C11.R8", Title: "source k of the feed is input k (ties go to the source listed first)", Floor: 1, Run: c11R8},
 			{ID: "C11.R7", Title: "the selection loop: a head is passed over only if it is empty or not newer than the best so far", Floor: 3, Run: c11R7},
 		},
 	}
@@ -650,4 +651,66 @@ func c11R7(c *Ctx) {
 		}
 		c.check(okIdx, name+"/pop-index", P.InstrPos(in), name, "the item is popped from the source whose head was chosen", "the source that is popped is not the one whose head was chosen: an item is delivered twice and another is lost")
 	})
+}
+
+// c11R8: "ties going to the source listed first" presupposes that the k-th
+// source of the Splicer is the k-th input. In NewSplicer the page of a source
+// must be stored at s[k].page where k is the index of the loop over the inputs
+// and the page derives from FetchUserInput(inputs[k]) of that same iteration;
+// the Splicer has one slot per input. Collecting the pages in the order in
+// which the fetches finish (a channel, an append from the goroutines) makes the
+// order of the sources depend on the network.
+func c11R8(c *Ctx) {
+	P := c.P
+	fn := P.Func("servitor/splicer", "NewSplicer")
+	name := FuncName(fn)
+	fui := P.Func("servitor/pub", "FetchUserInput")
+	inputs := fn.Params[0]
+	nStores := 0
+	for _, f := range append([]*ssa.Function{fn}, Closures(fn)...) {
+		fname := FuncName(f)
+		// the input fetched in this function: FetchUserInput(inputs[k])
+		var fetchIdx ssa.Value
+		eachInstr(f, func(_ *ssa.BasicBlock, _ int, in ssa.Instruction) {
+			call, ok := in.(*ssa.Call)
+			if !ok || call.Call.StaticCallee() != fui {
+				return
+			}
+			if ld, ok := unwrapLoad(call.Call.Args[0]).(*ssa.UnOp); ok && ld.Op == token.MUL {
+				if ia, ok := ld.X.(*ssa.IndexAddr); ok && unwrapLoad(ia.X) == ssa.Value(inputs) {
+					fetchIdx = unwrapLoad(ia.Index)
+				}
+			}
+		})
+		eachInstr(f, func(_ *ssa.BasicBlock, _ int, in ssa.Instruction) {
+			st, ok := in.(*ssa.Store)
+			if !ok {
+				return
+			}
+			fa, ok := st.Addr.(*ssa.FieldAddr)
+			if !ok || fieldOf(fa).Name() != "page" {
+				return
+			}
+			ia, ok := fa.X.(*ssa.IndexAddr)
+			if !ok {
+				return
+			}
+			nStores++
+			slot := unwrapLoad(ia.Index)
+			okSlot := fetchIdx != nil && slot == fetchIdx && inductionValue(slot)
+			// the slice indexed is the Splicer made with one slot per input
+			okLen := false
+			if mk, ok := unwrapLoad(ia.X).(*ssa.MakeSlice); ok {
+				if lc, ok := unwrapLoad(mk.Len).(*ssa.Call); ok {
+					if b, ok := lc.Call.Value.(*ssa.Builtin); ok && b.Name() == "len" && unwrapLoad(lc.Call.Args[0]) == ssa.Value(inputs) {
+						okLen = true
+					}
+				}
+			}
+			c.check(okSlot && okLen, fname+"/source-slot", P.InstrPos(in), fname, "s[k].page is the page of inputs[k], in a Splicer of len(inputs) sources",
+				"the page of a source is not stored at the index of the input it was fetched for (or the Splicer does not have one slot per input): the order of the sources, and with it every tie between equal timestamps, depends on which fetch finishes first")
+		})
+	}
+	c.check(nStores >= 1, name+"/source-slots", P.Pos(fn.Pos()), name, fmt.Sprintf("%d stores of a source's page", nStores),
+		"NewSplicer no longer stores the pages of its sources by input index: the order of the sources is not that of the inputs")
 }
